@@ -230,8 +230,12 @@ class Findings:
 
 # ---------------------------------------------------------------- verdict
 
+_verdicts = []      # live verdicts, so that a run that has to stop as inconclusive still reports the violations it had already found
+
+
 class Verdict:
     def __init__(self, prop, tier):
+        _verdicts.append(self)
         self.prop = prop
         self.tier = tier
         self.t0 = time.time()
